@@ -172,6 +172,24 @@ fn issuance<C: Cs>(ctx: &Ctx, st: &Setup<C>, own: Option<&CL03CommitmentPublicKe
         }
         let _ = tc;
     }
+    // a proof that is not tied to the trusted commitment at all, presented to an issuer that holds one
+    if let Some((tc, ck)) = &run.trusted {
+        let untied = ctx.call("ZKPoK::generate_proof", &case, None, || {
+            Ok::<_, ()>(Zk::<C>::generate_proof(&msgs, &c, None, st.pk(), &bases, None, &u))
+        });
+        if let Some(untied) = untied.value {
+            refuse("proof-without-trusted-part", &untied, &c, &u, true);
+        }
+        // the same with the trusted sub-proof stripped from an honest proof
+        let mut j = serde_json::to_value(&run.zk).unwrap();
+        if let Some(o) = j.get_mut("CL03").and_then(|x| x.as_object_mut()) {
+            o.insert("proof_C_Ctrusted".into(), Value::Null);
+        }
+        if let Ok(stripped) = serde_json::from_value::<Zk<C>>(j) {
+            refuse("trusted-sub-proof-stripped", &stripped, &c, &u, true);
+        }
+        let _ = (tc, ck);
+    }
     // field-wise edits of the serialized ZKPoK
     if tamper {
         let j = serde_json::to_value(&run.zk).unwrap();
